@@ -122,45 +122,45 @@ Proof.
   - intros i (th & Ei & Hf). apply (Hth _ _ Ei Hf).
 Qed.
 
-Section EvalSwap.
-  Variables (t : tree) (fl : file) (call : ident -> graph -> list value -> res (value * graph)).
+(* ---------------- what the evaluation-phase argument needs from the typing of the first state ---------------- *)
+Definition evty (okfn : ident -> Prop) (g0 : graph) (rg : N -> N) (S : lstate) : Prop :=
+  exists bdsDL : list ((N -> Prop) * (N -> Prop)),
+    evalable2 okfn S /\
+    (forall D L, In (D, L) bdsDL -> forall i j, D i -> D j -> i < j -> rg i < rg j) /\
+    (forall D L, In (D, L) bdsDL -> forall loc lv, L loc -> se_body (env_of S) (N.to_nat loc) = Some lv -> lvall okfn D L lv) /\
+    (forall i lv, se_body (env_of S) i = Some lv -> mty okfn bdsDL lv) /\
+    (forall name m n lv, se_cell (env_of S) name = Some m -> nmap_get m n = Some lv -> mty okfn bdsDL lv) /\
+    Forall (lsmty okfn bdsDL) (l_edges S) /\ Forall (lsmty okfn bdsDL) (l_attrs S) /\ Forall (lsmty okfn bdsDL) (l_prints S) /\
+    (forall name c, alist_get name (l_scoped S) = Some c -> exists ps, c = SVUnforced ps /\ Forall (pair_ok (sn S)) ps) /\
+    (exists ns, l_graph S = g0 ++ ns /\ Forall nplain ns).
+
+Lemma pair_ok_lit top ps : Forall (pair_ok top) ps -> scopes_lit ps.
+Proof. intros H. eapply Forall_impl; [|exact H]. intros pr [(v & Hv & _) _]. eauto. Qed.
+Lemma body_S S i lv : se_body (env_of S) i = Some lv -> exists th, nth_error (l_store S) i = Some th /\ body_of th = Some lv.
+Proof. cbn [env_of se_body]. destruct (nth_error (l_store S) i) as [th|]; [eauto|discriminate]. Qed.
+
+(* the typed states of Proofs/ScPermTyped.v provide it *)
+Section OldTy.
   Variable okfn : ident -> Prop.
-  Hypothesis Hcall : forall f, okfn f -> call_ok call f.
   Variable g0 : graph.
   Notation n0 := (N.of_nat (length g0)).
-  Hypothesis Hcl : gclosed n0 g0.
-  Variables (rg rl rg' rl' : N -> N) (bds : list bdesc) (S S' : lstate).
-  Hypothesis HS : SRT okfn g0 rg rl bds S S'.
-  Hypothesis Irg : forall i, rg' (rg i) = i.
-  Hypothesis Irg' : forall i, rg (rg' i) = i.
-  Hypothesis Irl : forall l, rl' (rl l) = l.
-  Hypothesis Irl' : forall l, rl (rl' l) = l.
-
+  Variables (rg : N -> N) (bds : list bdesc) (S : lstate).
+  Hypothesis Ht : styped okfn g0 bds S.
+  Hypothesis Hmono : forall d, In d bds -> forall i j, bD n0 d i -> bD n0 d j -> i < j -> rg i < rg j.
   Notation E := (env_of S).
-  Notation E' := (env_of S').
   Definition bdsDL : list ((N -> Prop) * (N -> Prop)) := map (fun d => (bD n0 d, bL d)) bds.
-
-  Let Ht : styped okfn g0 bds S. Proof. apply HS. Qed.
-  Let HSR : SR g0 rg rl S S'. Proof. apply HS. Qed.
 
   Lemma in_bdsDL D L : In (D, L) bdsDL -> exists d, In d bds /\ D = bD n0 d /\ L = bL d.
   Proof. unfold bdsDL. intros H. apply in_map_iff in H as (d & Hd & Hin). inversion Hd; subst. eauto. Qed.
-
-  (* ---- the typed state can be evaluated ---- *)
   Lemma cells_S name c : alist_get name (l_scoped S) = Some c -> exists ps, c = SVUnforced ps /\ Forall (pair_ok (sn S)) ps.
   Proof.
     intros Ec. destruct Ht as (_ & _ & _ & _ & _ & (Hu & Hc) & _). destruct (Hu _ _ Ec) as [ps ->]. exists ps. split; [reflexivity|].
     specialize (Hc name). unfold cellps in Hc. rewrite Ec in Hc. exact Hc.
   Qed.
-  Lemma pair_ok_lit top ps : Forall (pair_ok top) ps -> scopes_lit ps.
-  Proof. intros H. eapply Forall_impl; [|exact H]. intros pr [(v & Hv & _) _]. eauto. Qed.
-  Lemma body_S i lv : se_body E i = Some lv -> exists th, nth_error (l_store S) i = Some th /\ body_of th = Some lv.
-  Proof. cbn [env_of se_body]. destruct (nth_error (l_store S) i) as [th|]; [eauto|discriminate]. Qed.
-
   Lemma env_ok_S : env_ok okfn E.
   Proof.
     split.
-    - intros i lv Hb. destruct (body_S i lv Hb) as (th & Ei & Hbo). destruct Ht as (_ & Hth & _). destruct (Hth i th Ei) as ((d & Hd & HL) & Hall).
+    - intros i lv Hb. destruct (body_S S i lv Hb) as (th & Ei & Hbo). destruct Ht as (_ & Hth & _). destruct (Hth i th Ei) as ((d & Hd & HL) & Hall).
       eapply lvall_lvok. eapply thall_body; [apply (Hall d Hd HL)|exact Hbo].
     - intros name m n lv Hc Hn. cbn [env_of se_cell] in Hc. destruct (alist_get name (l_scoped S)) as [c|] eqn:Ec; [|discriminate].
       destruct (cells_S name c Ec) as (ps & -> & Hps). destruct (cell_val_values ps m n lv Hc Hn) as (pr & Hin & <-).
@@ -173,19 +173,17 @@ Section EvalSwap.
     destruct Ht as (_ & _ & He & Ha & Hp & _). split; [|split; [apply stmts_ok, He|split; [apply stmts_ok, Ha|split; [apply stmts_ok, Hp|exact env_ok_S]]]].
     intros name c Ec. destruct (cells_S name c Ec) as (ps & -> & Hps). eapply pair_ok_lit; eauto.
   Qed.
-
-  (* ---- the hypotheses of the renaming theorem ---- *)
   Lemma T1 : forall D L, In (D, L) bdsDL -> forall i j, D i -> D j -> i < j -> rg i < rg j.
-  Proof. intros D L Hin. destruct (in_bdsDL D L Hin) as (d & Hd & -> & ->). destruct HS as (_ & _ & _ & _ & _ & _ & _ & Hmono). apply (Hmono d Hd). Qed.
+  Proof. intros D L Hin. destruct (in_bdsDL D L Hin) as (d & Hd & -> & ->). apply (Hmono d Hd). Qed.
   Lemma T2 : forall D L, In (D, L) bdsDL -> forall loc lv, L loc -> se_body E (N.to_nat loc) = Some lv -> lvall okfn D L lv.
   Proof.
-    intros D L Hin loc lv HL Hb. destruct (in_bdsDL D L Hin) as (d & Hd & -> & ->). destruct (body_S _ lv Hb) as (th & Ei & Hbo).
+    intros D L Hin loc lv HL Hb. destruct (in_bdsDL D L Hin) as (d & Hd & -> & ->). destruct (body_S S _ lv Hb) as (th & Ei & Hbo).
     destruct Ht as (_ & Hth & _). destruct (Hth _ th Ei) as (_ & Hall). rewrite N2Nat.id in Hall. specialize (Hall d Hd HL).
     eapply lvall_impl; [| |eapply thall_body; [exact Hall|exact Hbo]]; [auto|]. intros l [H1 H2]. unfold bL in *. lia.
   Qed.
   Lemma T3 : forall i lv, se_body E i = Some lv -> mty okfn bdsDL lv.
   Proof.
-    intros i lv Hb. destruct (body_S i lv Hb) as (th & Ei & Hbo). destruct Ht as (_ & Hth & _). destruct (Hth i th Ei) as ((d & Hd & HL) & _).
+    intros i lv Hb. destruct (body_S S i lv Hb) as (th & Ei & Hbo). destruct Ht as (_ & Hth & _). destruct (Hth i th Ei) as ((d & Hd & HL) & _).
     apply (mty_local okfn bdsDL (bD n0 d) (bL d)); [unfold bdsDL; apply in_map_iff; exists d; auto|].
     apply (T2 (bD n0 d) (bL d)) with (loc := N.of_nat i); [unfold bdsDL; apply in_map_iff; exists d; auto|exact HL|rewrite Nat2N.id; exact Hb].
   Qed.
@@ -195,19 +193,6 @@ Section EvalSwap.
     destruct (cells_S name c Ec) as (ps & -> & Hps). destruct (cell_val_values ps m n lv Hc Hn) as (pr & Hin & <-).
     rewrite Forall_forall in Hps. destruct (Hps pr Hin) as [_ (loc & -> & _)]. cbn [mty]. right. exact I.
   Qed.
-  Lemma R1 : forall i lv, se_body E i = Some lv -> se_body E' (N.to_nat (rl (N.of_nat i))) = Some (lvren rg rl lv).
-  Proof.
-    intros i lv Hb. destruct (body_S i lv Hb) as (th & Ei & Hbo). destruct HSR as (_ & (_ & Hst) & _). cbn [env_of se_body]. rewrite (Hst i th Ei), body_of_thren, Hbo. reflexivity.
-  Qed.
-  Lemma R2 : forall name m, se_cell E name = Some m -> exists m', se_cell E' name = Some m' /\ forall n, nmap_get m' n = option_map (lvren rg rl) (nmap_get m n).
-  Proof.
-    intros name m Hc. cbn [env_of se_cell] in Hc. destruct (alist_get name (l_scoped S)) as [c|] eqn:Ec; [|discriminate].
-    destruct (cells_S name c Ec) as (ps & -> & _). destruct HSR as (_ & _ & _ & _ & _ & (Hu' & Hcs)). destruct (Hcs name) as [Hnone Hperm].
-    unfold cellps in Hperm. rewrite Ec in Hperm. cbn [env_of se_cell]. destruct (alist_get name (l_scoped S')) as [c'|] eqn:Ec'.
-    - destruct (Hu' _ _ Ec') as [ps' ->]. apply (cell_val_perm rg rl ps ps' m Hc Hperm).
-    - exfalso. destruct Hnone as [_ Hn]. specialize (Hn eq_refl). congruence.
-  Qed.
-
   Lemma mvall_mty d lv : In d bds -> mvall okfn (bD n0 d) (bL d) lv -> mty okfn bdsDL lv.
   Proof.
     intros Hd. assert (Hin : In (bD n0 d, bL d) bdsDL) by (unfold bdsDL; apply in_map_iff; exists d; auto).
@@ -226,6 +211,56 @@ Section EvalSwap.
     - destruct Hm as (H1 & H2 & H3). split; [eapply mvall_mty; eauto|]. split; [eapply mvall_mty; eauto|apply Hat, H3].
     - eapply Forall_impl; [|exact Hm]. intros [lv|]; auto. apply mvall_mty, Hd.
   Qed.
+  Lemma styped_evty : evty okfn g0 rg S.
+  Proof.
+    exists bdsDL. split; [exact evalable_S|]. split; [exact T1|]. split; [exact T2|]. split; [exact T3|]. split; [exact T4|].
+    pose proof Ht as (_ & _ & Tye & Tya & Typ & _ & Hg). split; [apply (stmts_mty is_estmt), Tye|]. split; [apply (stmts_mty is_astmt), Tya|]. split; [apply (stmts_mty is_pstmt), Typ|].
+    split; [exact cells_S|exact Hg].
+  Qed.
+End OldTy.
+
+Section EvalSwap.
+  Variables (t : tree) (fl : file) (call : ident -> graph -> list value -> res (value * graph)).
+  Variable okfn : ident -> Prop.
+  Hypothesis Hcall : forall f, okfn f -> call_ok call f.
+  Variable g0 : graph.
+  Notation n0 := (N.of_nat (length g0)).
+  Hypothesis Hcl : gclosed n0 g0.
+  Variables (rg rl rg' rl' : N -> N) (S S' : lstate).
+  Hypothesis HSR : SR g0 rg rl S S'.
+  Hypothesis Hrgid : forall i, i < n0 \/ gn S <= i -> rg i = i.
+  Hypothesis Hrlid : forall l, sn S <= l -> rl l = l.
+  Hypothesis Irg : forall i, rg' (rg i) = i.
+  Hypothesis Irl' : forall l, rl (rl' l) = l.
+  Notation E := (env_of S).
+  Notation E' := (env_of S').
+  (* the typing interface, unpacked *)
+  Variable bdsDL : list ((N -> Prop) * (N -> Prop)).
+  Hypothesis evalable_S : evalable2 okfn S.
+  Hypothesis T1 : forall D L, In (D, L) bdsDL -> forall i j, D i -> D j -> i < j -> rg i < rg j.
+  Hypothesis T2 : forall D L, In (D, L) bdsDL -> forall loc lv, L loc -> se_body E (N.to_nat loc) = Some lv -> lvall okfn D L lv.
+  Hypothesis T3 : forall i lv, se_body E i = Some lv -> mty okfn bdsDL lv.
+  Hypothesis T4 : forall name m n lv, se_cell E name = Some m -> nmap_get m n = Some lv -> mty okfn bdsDL lv.
+  Hypothesis Mte : Forall (lsmty okfn bdsDL) (l_edges S).
+  Hypothesis Mta : Forall (lsmty okfn bdsDL) (l_attrs S).
+  Hypothesis Mtp : Forall (lsmty okfn bdsDL) (l_prints S).
+  Hypothesis cells_S : forall name c, alist_get name (l_scoped S) = Some c -> exists ps, c = SVUnforced ps /\ Forall (pair_ok (sn S)) ps.
+  Hypothesis graph_S : exists ns, l_graph S = g0 ++ ns /\ Forall nplain ns.
+
+  Lemma env_ok_S' : env_ok okfn E. Proof. apply evalable_S. Qed.
+
+  Lemma R1 : forall i lv, se_body E i = Some lv -> se_body E' (N.to_nat (rl (N.of_nat i))) = Some (lvren rg rl lv).
+  Proof.
+    intros i lv Hb. destruct (body_S S i lv Hb) as (th & Ei & Hbo). destruct HSR as (_ & (_ & Hst) & _). cbn [env_of se_body]. rewrite (Hst i th Ei), body_of_thren, Hbo. reflexivity.
+  Qed.
+  Lemma R2 : forall name m, se_cell E name = Some m -> exists m', se_cell E' name = Some m' /\ forall n, nmap_get m' n = option_map (lvren rg rl) (nmap_get m n).
+  Proof.
+    intros name m Hc. cbn [env_of se_cell] in Hc. destruct (alist_get name (l_scoped S)) as [c|] eqn:Ec; [|discriminate].
+    destruct (cells_S name c Ec) as (ps & -> & _). destruct HSR as (_ & _ & _ & _ & _ & (Hu' & Hcs)). destruct (Hcs name) as [Hnone Hperm].
+    unfold cellps in Hperm. rewrite Ec in Hperm. cbn [env_of se_cell]. destruct (alist_get name (l_scoped S')) as [c'|] eqn:Ec'.
+    - destruct (Hu' _ _ Ec') as [ps' ->]. apply (cell_val_perm rg rl ps ps' m Hc Hperm).
+    - exfalso. destruct Hnone as [_ Hn]. specialize (Hn eq_refl). congruence.
+  Qed.
 
   (* ---- the other state ---- *)
   Lemma len_eq : length (l_store S) = length (l_store S'). Proof. apply HSR. Qed.
@@ -234,7 +269,7 @@ Section EvalSwap.
   Proof.
     intros Hi. exists (N.to_nat (rl' (N.of_nat i'))). rewrite N2Nat.id, Irl'. split; [|reflexivity].
     destruct (Nat.lt_ge_cases (N.to_nat (rl' (N.of_nat i'))) (length (l_store S))) as [Hlt|Hge]; [exact Hlt|]. exfalso.
-    destruct HS as (_ & _ & _ & _ & _ & _ & Hrlid & _). pose proof (Hrlid (rl' (N.of_nat i')) ltac:(rewrite sn_len; lia)) as Hfix. rewrite Irl' in Hfix.
+    pose proof (Hrlid (rl' (N.of_nat i')) ltac:(rewrite sn_len; lia)) as Hfix. rewrite Irl' in Hfix.
     rewrite <- Hfix in Hge. rewrite Nat2N.id in Hge. rewrite len_eq in Hge. lia.
   Qed.
   Lemma thunks_S' i' th' : nth_error (l_store S') i' = Some th' ->
@@ -258,12 +293,12 @@ Section EvalSwap.
     intros Hps HP Hin. apply (Permutation_in _ (Permutation_sym HP)) in Hin. apply in_map_iff in Hin as (pr & <- & Hin). rewrite Forall_forall in Hps.
     destruct (Hps pr Hin) as [(v & Hv & _) (loc & Hl & _)]. unfold prren. cbn [fst snd]. rewrite Hv, Hl. cbn [lvren]. eauto.
   Qed.
-  Lemma env_ok_S' : env_ok okfn E'.
+  Lemma env_ok_S2 : env_ok okfn E'.
   Proof.
     split.
     - intros i' lv' Hb. cbn [env_of se_body] in Hb. destruct (nth_error (l_store S') i') as [th'|] eqn:Ei; [|discriminate].
       destruct (thunks_S' i' th' Ei) as (j & th & Ej & _ & ->). rewrite body_of_thren in Hb. destruct (body_of th) as [lv|] eqn:Hbo; [|discriminate].
-      cbn [option_map] in Hb. inversion Hb; subst lv'. apply lvok_lvren. apply (proj1 env_ok_S j lv). cbn [env_of se_body]. rewrite Ej. exact Hbo.
+      cbn [option_map] in Hb. inversion Hb; subst lv'. apply lvok_lvren. apply (proj1 env_ok_S' j lv). cbn [env_of se_body]. rewrite Ej. exact Hbo.
     - intros name m n lv Hc Hn. cbn [env_of se_cell] in Hc. destruct (alist_get name (l_scoped S')) as [c'|] eqn:Ec'; [|discriminate].
       destruct (cells_S' name c' Ec') as (ps & ps' & -> & _ & Hps & HP). destruct (cell_val_values ps' m n lv Hc Hn) as (pr' & Hin & <-).
       destruct (pairs_S' ps ps' pr' Hps HP Hin) as [_ (loc & ->)]. exact I.
@@ -286,25 +321,24 @@ Section EvalSwap.
     intros Hm HF. induction HF as [|st l Hd HF IH]; cbn [map]; [constructor|]. inversion Hm; subst. constructor; [|apply IH; assumption].
     apply (sprint_ok_ren t fl call okfn Hcall E E' rg rl bdsDL T1 T2 T3 T4 R1 R2); assumption.
   Qed.
-  Lemma lsok_perm K l l' : stmts_typed okfn g0 K bds l -> Permutation (map (lsren rg rl) l) l' -> Forall (lsok okfn) l'.
+  Lemma lsok_perm (K : lstmt -> Prop) l l' : Forall (fun st => K st /\ lsok okfn st) l -> Permutation (map (lsren rg rl) l) l' -> Forall (lsok okfn) l'.
   Proof.
-    intros H HP. eapply Permutation_Forall; [exact HP|]. apply Forall_forall. intros y Hy. apply in_map_iff in Hy as (x & <- & Hx).
-    apply lsok_lsren. pose proof (stmts_ok K l H) as Hok. rewrite Forall_forall in Hok. apply (Hok x Hx).
+    intros Hok HP. eapply Permutation_Forall; [exact HP|]. apply Forall_forall. intros y Hy. apply in_map_iff in Hy as (x & <- & Hx).
+    apply lsok_lsren. rewrite Forall_forall in Hok. apply (Hok x Hx).
   Qed.
 
   Lemma inj_rg : inj rg. Proof. intros i j Hij. rewrite <- (Irg i), <- (Irg j), Hij. reflexivity. Qed.
 
-  Theorem eval_swap pS pS' F1 u fin p1 : nob pS' -> evaluate_phase t fl call F1 S pS = Ok (u, fin, p1) ->
+  Theorem eval_swap_gen pS pS' F1 u fin p1 : nob pS' -> evaluate_phase t fl call F1 S pS = Ok (u, fin, p1) ->
     exists F0, forall F, (F0 <= F)%nat -> exists fin' p', evaluate_phase t fl call F S' pS' = Ok (tt, fin', p') /\ graph_iso rg (l_graph fin) (l_graph fin').
   Proof.
     intros Hb' H. destruct (eval_sound t fl call okfn Hcall F1 S pS u fin p1 H evalable_S) as (eops & aopss & g1 & HFe & HFa & HFp & Hg1 & Hg2 & Hall & Hcells).
-    pose proof Ht as (_ & _ & Tye & Tya & Typ & _ & (ns0 & Hg0 & Hpl0)).
+    pose proof evalable_S as (_ & Oke & Oka & Okp & _). destruct graph_S as (ns0 & Hg0 & Hpl0).
     pose proof HSR as ((ns & ns' & Hgs & Hgs' & Hlen & Hpl' & Hnth) & (Hsl & Hst) & Pe & Pa & Pp & (Hu' & Hcs)).
-    pose proof HS as (_ & _ & _ & _ & _ & Hrgid & Hrlid & _).
     (* the statements of S' denote the renamed operations, up to order *)
-    destruct (Forall2_perm _ _ _ Pe _ (Forall2_edge_ren _ _ (stmts_mty is_estmt _ Tye) HFe)) as (eops' & Pe' & HFe').
-    destruct (Forall2_perm _ _ _ Pa _ (Forall2_astmt_ren _ _ (stmts_mty is_astmt _ Tya) HFa)) as (aopss' & Pa' & HFa').
-    assert (HFp' : Forall (sprint_ok t fl call E') (l_prints S')) by (eapply Permutation_Forall; [exact Pp|apply Forall_print_ren; [apply (stmts_mty is_pstmt _ Typ)|exact HFp]]).
+    destruct (Forall2_perm _ _ _ Pe _ (Forall2_edge_ren _ _ Mte HFe)) as (eops' & Pe' & HFe').
+    destruct (Forall2_perm _ _ _ Pa _ (Forall2_astmt_ren _ _ Mta HFa)) as (aopss' & Pa' & HFa').
+    assert (HFp' : Forall (sprint_ok t fl call E') (l_prints S')) by (eapply Permutation_Forall; [exact Pp|apply Forall_print_ren; [exact Mtp|exact HFp]]).
     (* the graphs before evaluation *)
     assert (Ens : ns0 = ns) by (rewrite Hg0 in Hgs; apply app_inv_head in Hgs; exact Hgs). subst ns0.
     assert (HI : giso rg (l_graph S) (l_graph S')).
@@ -328,8 +362,30 @@ Section EvalSwap.
     assert (Htot : cells_total E' S').
     { intros name c' Ec'. destruct (cells_S' name c' Ec') as (ps & ps' & _ & Ec & _). pose proof (Hcells name _ Ec) as Hne.
       destruct (se_cell E name) as [m|] eqn:Em; [|congruence]. destruct (R2 name m Em) as (m' & Em' & _). rewrite Em'. discriminate. }
-    destruct (eval_adequate t fl call okfn Hcall E' env_ok_S' S' pS' eops' aopss' g1' g2' HA' HN' HFe' HFa' HFp'
-                (lsok_perm is_estmt _ _ Tye Pe) (lsok_perm is_astmt _ _ Tya Pa) (lsok_perm is_pstmt _ _ Typ Pp) Hg1' Hg2' Hall' Htot Hb') as (F0 & u' & fin' & p' & HB & Hfin & _).
+    destruct (eval_adequate t fl call okfn Hcall E' env_ok_S2 S' pS' eops' aopss' g1' g2' HA' HN' HFe' HFa' HFp'
+                (lsok_perm is_estmt _ _ Oke Pe) (lsok_perm is_astmt _ _ Oka Pa) (lsok_perm is_pstmt _ _ Okp Pp) Hg1' Hg2' Hall' Htot Hb') as (F0 & u' & fin' & p' & HB & Hfin & _).
     exists F0. intros F HF0. exists fin', p'. destruct u'. split; [apply HB, HF0|]. rewrite Hfin. exact Hiso.
   Qed.
 End EvalSwap.
+
+(* with the interface packed *)
+Theorem eval_swap_ty (t : tree) (fl : file) (call : ident -> graph -> list value -> res (value * graph)) (okfn : ident -> Prop) (Hcall : forall f, okfn f -> call_ok call f)
+    (g0 : graph) (Hcl : gclosed (N.of_nat (length g0)) g0) (rg rl rg' rl' : N -> N) (S S' : lstate) :
+  SR g0 rg rl S S' -> evty okfn g0 rg S -> (forall i, i < N.of_nat (length g0) \/ gn S <= i -> rg i = i) -> (forall l, sn S <= l -> rl l = l) ->
+  (forall i, rg' (rg i) = i) -> (forall l, rl (rl' l) = l) ->
+  forall pS pS' F1 u fin p1, nob pS' -> evaluate_phase t fl call F1 S pS = Ok (u, fin, p1) ->
+  exists F0, forall F, (F0 <= F)%nat -> exists fin' p', evaluate_phase t fl call F S' pS' = Ok (tt, fin', p') /\ graph_iso rg (l_graph fin) (l_graph fin').
+Proof.
+  intros HSR (bdsDL & Hev & T1 & T2 & T3 & T4 & Me & Ma & Mp & Hc & Hg) Hrg Hrl I1 I4 pS pS' F1 u fin p1.
+  apply (eval_swap_gen t fl call okfn Hcall g0 Hcl rg rl rg' rl' S S' HSR Hrg Hrl I1 I4 bdsDL Hev T1 T2 T3 T4 Me Ma Mp Hc Hg).
+Qed.
+
+(* the statement used by Proofs/ScPermRun.v *)
+Theorem eval_swap (t : tree) (fl : file) (call : ident -> graph -> list value -> res (value * graph)) (okfn : ident -> Prop) (Hcall : forall f, okfn f -> call_ok call f)
+    (g0 : graph) (Hcl : gclosed (N.of_nat (length g0)) g0) (rg rl rg' rl' : N -> N) (bds : list bdesc) (S S' : lstate) :
+  SRT okfn g0 rg rl bds S S' -> (forall i, rg' (rg i) = i) -> (forall l, rl (rl' l) = l) ->
+  forall pS pS' F1 u fin p1, nob pS' -> evaluate_phase t fl call F1 S pS = Ok (u, fin, p1) ->
+  exists F0, forall F, (F0 <= F)%nat -> exists fin' p', evaluate_phase t fl call F S' pS' = Ok (tt, fin', p') /\ graph_iso rg (l_graph fin) (l_graph fin').
+Proof.
+  intros (HSR & (Ht & _ & _) & _ & _ & _ & Hrg & Hrl & Hmono) I1 I4. apply (eval_swap_ty t fl call okfn Hcall g0 Hcl rg rl rg' rl' S S' HSR (styped_evty okfn g0 rg bds S Ht Hmono) Hrg Hrl I1 I4).
+Qed.
